@@ -467,6 +467,7 @@ func c19(r *core.Run) {
 			r.Check(unclassified == "", "T1", fname, "message-classified-before-it-is-parsed", p.InstrPos(sel), "every path from a receive on the inbox to ParseResponse tests the message's data first", "a message received by the select at "+unclassified+" reaches ParseResponse without any test of its data: a pre-response (timeout:\"<ms>\") taken there is parsed and returned as if it were the response - SendRequest returns an internal error instead of waiting for the response within the extended deadline")
 		}
 	}
+	c19ClassifiesByAsciiLetter(r, wf, sel, fname)
 	r.Check(parseOK, "T1", fname, "response-arm-returns-ParseResponse(msg.Data)", p.InstrPos(sel), "a real response is parsed and returned", "no return of ParseResponse(msg.Data)")
 	// pre-response arm (its statements may live in private helpers of SendRequest)
 	var atoi, lookup, stop, newTimer ssa.CallInstruction
